@@ -47,6 +47,10 @@ def generate(seed, batch):
     scen['second_pair'] = rng.random() < 0.3
     # an earlier analysis in the same process that asked for a loose solver tolerance (result not judged)
     scen['loose_first'] = 10 ** rng.uniform(-3, -1) if rng.random() < 0.15 else None
+    scen['np_scalars'] = rng.random() < 0.3
+    scen['minimal_kwargs'] = rng.random() < 0.5
+    # an earlier analysis in the same process that spelled out other options than the judged one (result not judged)
+    scen['other_options_first'] = rng.random() < 0.2
     if batch in ('F0', 'FI'):
         n = rng.choice([6, 8, 12, 20, 30, 45, 60, 90, 120, rng.randint(6, 200), rng.randint(6, 400)])
         scen['impl'] = rng.choice(['analysis', 'analysis', 'panel'])
@@ -120,7 +124,7 @@ def shrink_candidates(scen):
         c = copy.deepcopy(scen)
         c['faults'] = []
         yield c
-    for key, val in (('mass_scale', None), ('cross_path', False), ('reduced_dof', False), ('second_v0', False), ('redefine_mu', None), ('second_pair', False), ('loose_first', None)):
+    for key, val in (('mass_scale', None), ('cross_path', False), ('reduced_dof', False), ('second_v0', False), ('redefine_mu', None), ('second_pair', False), ('loose_first', None), ('np_scalars', False), ('minimal_kwargs', False), ('other_options_first', False)):
         if scen.get(key) not in (val,):
             c = copy.deepcopy(scen)
             c[key] = val
@@ -202,9 +206,19 @@ def build_panel(scen):
 
 def call_impl(scen, K, M, k, sparse, sort, reduced, obj=None, tol=0):
     impl = scen['impl']
+    if scen.get('np_scalars'):
+        # counts and switches that come out of numpy computations (np.int64, np.bool_, np.float64) instead of Python literals
+        import numpy as _np
+        k, sparse, sort, tol = _np.int64(k), _np.bool_(sparse), _np.bool_(sort), _np.float64(tol)
     if impl == 'analysis':
         from compmech.analysis import freq
-        return freq(K, M, tol=tol, sparse_solver=sparse, silent=True, sort=sort, reduced_dof=reduced, num_eigvalues=k)
+        kw = dict(tol=tol, sparse_solver=sparse, silent=True, sort=sort, reduced_dof=reduced, num_eigvalues=k)
+        if scen.get('minimal_kwargs'):
+            # only what differs from the documented defaults is spelled out
+            for name_, dflt in (('tol', 0), ('sparse_solver', True), ('sort', True), ('reduced_dof', False), ('num_eigvalues', 25)):
+                if kw[name_] == dflt:
+                    del kw[name_]
+        return freq(K, M, **kw)
     if impl == 'panel':
         from compmech.panel import Panel
         if obj is None:
@@ -408,6 +422,14 @@ def execute(scen):
         log.add('pair', n, int(len(active)), k, bool(sparse), bool(sort), scen['impl'])
         seam.install([m_freq, m_panel])
         outcome = None
+        if scen.get('other_options_first') and scen['impl'] == 'analysis':
+            saved_faults, seam.faults = seam.faults, {}
+            try:
+                call_impl(dict(scen, minimal_kwargs=False), K, M, 3 if k != 3 else 4, not sparse, not sort, False)
+            except Exception as e:
+                bump(res['exceptions'], 'other_options_first_' + type(e).__name__)
+            seam.faults, seam.calls, seam.modes = saved_faults, 0, []
+            bump(res['probes'], 'call_with_other_options_first')
         if scen.get('loose_first'):
             saved_faults, seam.faults = seam.faults, {}
             try:
